@@ -261,7 +261,7 @@ class Ctx:
             "known_findings_hit": {k: v[1] for k, v in self.known_hits.items()},
             "model_driver_lines": sum(d.lines for d in self._drivers),
         }
-        cov.update(self.extra)
+        cov.update({k: v for k, v in self.extra.items() if not k.startswith("_")})
         ev = {"property_id": self.prop, "tier": self.tier, "seed": self.seed, "level": "proof", "coverage": cov,
               "assumptions": self.assumptions, "wall_s": round(wall, 2),
               "violations": len(self.violations) + (1 if (rc and not self.violations) else 0)}
